@@ -2,6 +2,8 @@ package rules
 
 import (
 	"fmt"
+	"go/token"
+	"sort"
 	"strings"
 
 	"golang.org/x/tools/go/ssa"
@@ -19,6 +21,7 @@ func init() {
 			"(whole module in the thorough tier). (S2 co-update) txByHashMap: a successful SetIfAbsent is accompanied by counter.Increment and numBytes.Add, a successful Remove by Decrement and Subtract; " +
 			"txListForSender: every list insertion is accompanied by onAddedTransaction(tx) and every list removal by onRemovedListElement(e) on the same element. " +
 			"(S3) both indexes are updated together in AddTx, RemoveTxByHash and doEvictItems, and transactions evicted from a sender's list are removed from the by-hash index. " +
+			"The removal's search gives up early only under facts that are the mirror image of a placement condition of findInsertionPlace (the order of the list is read from the insertion, not listed). " +
 			"Not decided (value-level): ordering by nonce/gas price, score arithmetic; lock discipline is not part of this property. Added in the second seeding round: every method of txByHashMap that changes the map's population or one counter updates both counters (clear included - a genuine defect, repaired); every return of txListForSender.AddTx after an insertion lies behind applySizeConstraints and reports its evictions; sweepSweepable resets the collected senders after evicting them.",
 		Run: runC25,
 	})
@@ -332,6 +335,7 @@ func runC25(c *core.Ctx) {
 		}
 	}
 	c.Floor("C25/both-indexes-updated", 7)
+	c25SearchAgreesWithInsertion(c)
 }
 
 // c25LimitsAndSweep: (a) every insertion into a sender's list is followed by the size
@@ -424,4 +428,152 @@ func c25LimitsAndSweep(c *core.Ctx) {
 				"the collected senders are evicted but the collection is not reset ("+c.P.PathString(path)+"): the next sweep evicts the same sender keys and hashes again, removing lists and transactions added since (the by-hash index and the sender index diverge)")
 		}
 	}
+}
+
+// c25SearchAgreesWithInsertion: the per-sender list is kept in an order that only findInsertionPlace
+// defines (it returns the element the incoming transaction goes AFTER, under comparisons of the two
+// transactions' nonce / gas price). findListElementWithTx, used by the removal, may give up early
+// only where that order says the sought transaction cannot come later: the facts under which it
+// leaves the loop without a match are the mirror image of one of the insertion's placement
+// conditions. An early stop on any other comparison abandons transactions that are in the list:
+// the by-hash index has already forgotten them, the sender's list keeps them for ever.
+func c25SearchAgreesWithInsertion(c *core.Ctx) {
+	const pkg = "storage/txcache"
+	ins := anchorM(c, pkg, "txListForSender", "findInsertionPlace")
+	find := anchorM(c, pkg, "txListForSender", "findListElementWithTx")
+	if ins == nil || find == nil || len(ins.Params) < 2 || len(find.Params) < 2 {
+		return
+	}
+	// side: "p" when the accessor is called on the function's transaction parameter, "c" on a list element
+	accessor := func(fn *ssa.Function, v ssa.Value) (side, name string) {
+		call, ok := v.(*ssa.Call)
+		if !ok || !call.Call.IsInvoke() || len(call.Call.Args) != 0 {
+			return "", ""
+		}
+		name = call.Call.Method.Name()
+		for x := range core.BackwardReachPure(call.Call.Value) {
+			if x == ssa.Value(fn.Params[1]) {
+				return "p", name
+			}
+		}
+		for x := range core.BackwardReachPure(call.Call.Value) {
+			if _, isTA := x.(*ssa.TypeAssert); isTA {
+				return "c", name
+			}
+		}
+		return "", ""
+	}
+	// rel: the comparison as rel(current element, parameter transaction) on one accessor
+	type rel struct{ acc, op string }
+	relOf := func(fn *ssa.Function, v ssa.Value, taken bool) (rel, bool) {
+		bo, ok := v.(*ssa.BinOp)
+		if !ok {
+			return rel{}, false
+		}
+		sx, nx := accessor(fn, bo.X)
+		sy, ny := accessor(fn, bo.Y)
+		if nx == "" || nx != ny || sx == sy || sx == "" || sy == "" {
+			return rel{}, false
+		}
+		op := bo.Op
+		if !taken {
+			op = map[token.Token]token.Token{token.EQL: token.NEQ, token.NEQ: token.EQL, token.LSS: token.GEQ, token.GEQ: token.LSS, token.GTR: token.LEQ, token.LEQ: token.GTR}[op]
+		}
+		if sx == "p" { // normalise to (current, parameter)
+			op = map[token.Token]token.Token{token.EQL: token.EQL, token.NEQ: token.NEQ, token.LSS: token.GTR, token.GTR: token.LSS, token.LEQ: token.GEQ, token.GEQ: token.LEQ}[op]
+		}
+		return rel{nx, op.String()}, true
+	}
+	factsOf := func(fn *ssa.Function, conds []core.Cond) map[rel]bool {
+		out := map[rel]bool{}
+		for _, cd := range conds {
+			vs := []ssa.Value{cd.V}
+			if cd.Taken {
+				vs = core.Conjuncts(cd.V)
+			}
+			for _, v := range vs {
+				if len(vs) > 1 || cd.Taken {
+					if r, ok := relOf(fn, v, true); ok && (cd.Taken) {
+						out[r] = true
+						continue
+					}
+				}
+			}
+			if !cd.Taken {
+				if r, ok := relOf(fn, cd.V, false); ok {
+					out[r] = true
+				}
+			}
+		}
+		return out
+	}
+	strict := func(m map[rel]bool) map[rel]bool { // keep what defines an order: ==, <, >
+		out := map[rel]bool{}
+		for r := range m {
+			if r.op == "==" || r.op == "<" || r.op == ">" {
+				out[r] = true
+			}
+		}
+		return out
+	}
+	key := func(m map[rel]bool) string {
+		var ks []string
+		for r := range m {
+			ks = append(ks, r.acc+r.op)
+		}
+		sort.Strings(ks)
+		return strings.Join(ks, " && ")
+	}
+	mirror := func(m map[rel]bool) map[rel]bool {
+		out := map[rel]bool{}
+		for r := range m {
+			out[rel{r.acc, map[string]string{"==": "==", "<": ">", ">": "<"}[r.op]}] = true
+		}
+		return out
+	}
+	// placement conditions of the insertion: returns of (element, nil)
+	allowed := map[string]bool{}
+	for _, r := range core.Returns(ins) {
+		if core.IsNilConst(core.RetOperand(r, 0)) || !core.NilReturn(r, nil) {
+			continue
+		}
+		if f := strict(factsOf(ins, core.CondsAt(r.Block()))); len(f) > 0 {
+			allowed[key(mirror(f))] = true
+		}
+	}
+	c.Check(len(allowed) >= 1, "C25/search-agrees-with-insertion", "txListForSender.findInsertionPlace/order", ins.Pos(),
+		fmt.Sprintf("placement conditions read from the insertion; the search may stop under: %v", keysOf(allowed)),
+		"no placement condition (comparison of the two transactions' nonce / gas price at a `return element, nil`) was found in findInsertionPlace: the order of the list is not defined where this rule expects it")
+	var loop *core.Loop
+	for _, l := range core.Loops(find) {
+		loop = l
+	}
+	if loop == nil {
+		c.Undecided("C25/search-agrees-with-insertion", "txListForSender.findListElementWithTx", find.Pos(), "no search loop")
+		return
+	}
+	n := 0
+	for _, e := range loop.Exits() {
+		if e.From == loop.Header {
+			continue // exhaustion
+		}
+		to := e.From.Succs[e.Succ]
+		if r, ok := to.Instrs[len(to.Instrs)-1].(*ssa.Return); ok && !core.IsNilConst(core.RetOperand(r, 0)) {
+			continue // found
+		}
+		n++
+		f := strict(factsOf(find, core.CondsOnEdge(e.From, e.Succ)))
+		c.Check(allowed[key(f)], "C25/search-agrees-with-insertion", fmt.Sprintf("txListForSender.findListElementWithTx/early-stop#%d", n), firstPos(to),
+			"the search gives up under "+key(f)+", the mirror of a placement condition of the insertion",
+			fmt.Sprintf("the search for the transaction to remove gives up under [%s] (current element vs sought transaction), which is not the mirror of a placement condition of findInsertionPlace (%v): transactions that are in the list are reported as not found, removal by hash forgets them in the index while the sender's list keeps them", key(f), keysOf(allowed)))
+	}
+}
+
+func keysOf(m map[string]bool) []string {
+	var ks []string
+	for k := range m {
+		ks = append(ks, k)
+	}
+	sort.Strings(ks)
+	return ks
 }
